@@ -27,78 +27,114 @@ func runC06(p *core.Prog, r *core.Report) {
 		return
 	}
 
-	// ---- R1
-	allowed := func(role, dir string, fn *ssa.Function) (bool, string) {
-		root := rootFn(fn)
+	// ---- R1 (on the package's inlined views: an operation in a helper is judged as part of each function that calls the helper)
+	allowed := func(role, dir string, root *ssa.Function) (bool, string) {
 		switch role + "/" + dir {
 		case "buffered/send":
-			return root == t.Push, "PushTask"
+			return sameFn(root, t.Push), "PushTask"
 		case "buffered/recv":
-			return root == t.Queue, "the queue goroutine"
+			return sameFn(root, t.Queue), "the queue goroutine"
 		case "blocking/send", "shared/send":
-			return root == t.Queue, "the queue goroutine"
+			return sameFn(root, t.Queue), "the queue goroutine"
 		case "blocking/recv", "shared/recv":
-			return root == t.Worker, "the worker goroutine"
+			return sameFn(root, t.Worker), "the worker goroutine"
 		}
 		return false, "nobody"
 	}
 	n := map[string]int{}
-	use := func(fn *ssa.Function, in ssa.Instruction, ch ssa.Value, dir string) {
+	use := func(root *ssa.Function, in ssa.Instruction, ch ssa.Value, dir string) {
 		role := t.chanRole(ch)
 		if role != "buffered" && role != "blocking" && role != "shared" {
 			return
 		}
-		ok, who := allowed(role, dir, fn)
-		key := fmt.Sprintf("%s %s in %s", dir, role, fnName(fn))
+		ok, who := allowed(role, dir, root)
+		key := fmt.Sprintf("%s %s in %s", dir, role, fnName(root))
 		n[key]++
-		r.Check(ok, "C06-R1", fmt.Sprintf("%s #%d", key, n[key]), p.Pos(in.Pos()), "role respected", fmt.Sprintf("%s on a %s channel in %s: only %s may do that — a second %s breaks exactly-once hand-over", dir, role, fnName(fn), who, map[string]string{"send": "producer", "recv": "consumer"}[dir]))
+		r.Check(ok, "C06-R1", fmt.Sprintf("%s #%d", key, n[key]), p.Pos(in.Pos()), "role respected", fmt.Sprintf("%s on a %s channel in %s (code of %s): only %s may do that — a second %s breaks exactly-once hand-over", dir, role, fnName(root), fnName(sx.SourceFunc(in)), who, map[string]string{"send": "producer", "recv": "consumer"}[dir]))
 	}
-	for _, fn := range p.ModuleFuncs() {
-		sx.Instrs(fn, func(in ssa.Instruction) {
-			switch x := in.(type) {
-			case *ssa.Select:
-				for _, st := range x.States {
-					d := "recv"
-					if st.Dir == types.SendOnly {
-						d = "send"
+	isLane := func(v ssa.Value) (string, bool) {
+		if _, isChan := v.Type().Underlying().(*types.Chan); !isChan {
+			return "", false
+		}
+		role := t.chanRole(v)
+		return role, role == "buffered" || role == "blocking" || role == "shared"
+	}
+	for _, v := range t.Views {
+		for _, fn := range sx.WithClosures(v.Fn) {
+			sx.Instrs(fn, func(in ssa.Instruction) {
+				switch x := in.(type) {
+				case *ssa.Select:
+					for _, st := range x.States {
+						d := "recv"
+						if st.Dir == types.SendOnly {
+							d = "send"
+						}
+						use(v.Root, in, st.Chan, d)
 					}
-					use(fn, in, st.Chan, d)
+				case *ssa.Send:
+					use(v.Root, in, x.Chan, "send")
+				case *ssa.UnOp:
+					if x.Op == token.ARROW {
+						use(v.Root, in, x.X, "recv")
+					}
+				case *ssa.Range:
+					if _, isChan := x.X.Type().Underlying().(*types.Chan); isChan {
+						use(v.Root, in, x.X, "recv")
+					}
 				}
-			case *ssa.Send:
-				use(fn, in, x.Chan, "send")
-			case *ssa.UnOp:
-				if x.Op == token.ARROW {
-					use(fn, in, x.X, "recv")
+				// a lane channel handed to a callee that is not expanded here (or stored, or captured) leaves the view: nobody checks what is done with it
+				if c, ok := in.(ssa.CallInstruction); ok {
+					b, isBuiltin := c.Common().Value.(*ssa.Builtin)
+					for _, a := range sx.Args(c) {
+						role, lane := isLane(a)
+						if !lane {
+							continue
+						}
+						if isBuiltin && (b.Name() == "len" || b.Name() == "cap") {
+							continue
+						}
+						what := sx.CalleeName(c)
+						r.Fail("C06-R1", "lane channel passed to "+short(what)+" in "+fnName(v.Root), p.Pos(in.Pos()), "a "+role+" channel is passed to "+short(what)+" (close, or a function this analysis does not expand): its use there is not covered by the role rule")
+					}
 				}
-			case *ssa.Call:
-				if b, ok := x.Call.Value.(*ssa.Builtin); ok && len(x.Call.Args) > 0 {
-					role := t.chanRole(x.Call.Args[0])
-					if role == "buffered" || role == "blocking" || role == "shared" {
-						if _, isChan := x.Call.Args[0].Type().Underlying().(*types.Chan); isChan && b.Name() != "len" && b.Name() != "cap" {
-							r.Fail("C06-R1", b.Name()+" of a "+role+" channel in "+fnName(fn), p.Pos(in.Pos()), "lane channels are never closed / passed to "+b.Name())
+				if st, ok := in.(*ssa.Store); ok {
+					if role, lane := isLane(st.Val); lane {
+						if _, isLocal := st.Addr.(*ssa.Alloc); !isLocal {
+							r.Fail("C06-R1", "lane channel stored in "+fnName(v.Root), p.Pos(in.Pos()), "a "+role+" channel is copied into "+sx.AddrPath(st.Addr)+": uses through the copy are not covered by the role rule")
 						}
 					}
 				}
-			case *ssa.Range:
-				if _, isChan := x.X.Type().Underlying().(*types.Chan); isChan {
-					use(fn, in, x.X, "recv")
-				}
-			}
-		})
+			})
+		}
 	}
 	// field and element immutability
+	var viewFns []*ssa.Function
+	for _, v := range t.Views {
+		viewFns = append(viewFns, sx.WithClosures(v.Fn)...)
+	}
+	seenW := map[ssa.Instruction]bool{}
 	for _, f := range []*types.Var{t.Buffered, t.Blocking, t.Shared} {
-		for _, ref := range sx.FieldRefs(p.ModuleFuncs(), f) {
+		for _, ref := range sx.FieldRefs(viewFns, f) {
 			fa, ok := ref.Instr.(*ssa.FieldAddr)
 			if !ok {
 				continue
 			}
 			for _, a := range sx.Accesses(fa) {
+				if a.Kind != "read" && seenW[sx.OrigInstr(a.Instr)] && !sameFn(rootFn(ref.Fn), t.Ctor) {
+					continue // the same source statement, already judged in another view
+				}
 				switch a.Kind {
 				case "write":
-					r.Check(ref.Fn == t.Ctor && sx.IsFreshObject(ref.Base), "C06-R1", f.Name()+" assigned in "+fnName(ref.Fn), p.Pos(a.Instr.Pos()), "constructor, before publication", "channel field reassigned after construction")
+					seenW[sx.OrigInstr(a.Instr)] = true
+					r.Check(sameFn(rootFn(ref.Fn), t.Ctor) && sx.IsFreshObject(ref.Base), "C06-R1", f.Name()+" assigned in "+fnName(ref.Fn), p.Pos(a.Instr.Pos()), "constructor, before publication", "channel field reassigned after construction")
 				case "elem-write":
-					r.Fail("C06-R1", "element of "+f.Name()+" assigned in "+fnName(ref.Fn), p.Pos(a.Instr.Pos()), "a lane's channel is replaced after construction")
+					seenW[sx.OrigInstr(a.Instr)] = true
+					// filling the list in place is construction when it happens in the constructor on the fresh object
+					if sameFn(rootFn(ref.Fn), t.Ctor) && sx.IsFreshObject(ref.Base) {
+						r.OK("C06-R1", "element of "+f.Name()+" assigned in "+fnName(ref.Fn), p.Pos(a.Instr.Pos()), "constructor fills the list of the fresh object before publication")
+					} else {
+						r.Fail("C06-R1", "element of "+f.Name()+" assigned in "+fnName(ref.Fn), p.Pos(a.Instr.Pos()), "a lane's channel is replaced after construction")
+					}
 				case "addr-escape":
 					r.Fail("C06-R1", "address of "+f.Name()+" escapes in "+fnName(ref.Fn), p.Pos(a.Instr.Pos()), "channel field address escapes")
 				}
@@ -241,6 +277,35 @@ func runC06(p *core.Prog, r *core.Report) {
 		}
 	}
 
+	// ---- R3/R4: a lane goroutine ends only because the context is done. Any other exit (a sentinel value, an
+	// error shortcut) strands every task accepted afterwards: the buffer still takes them, nobody starts them.
+	for _, g := range []struct {
+		fn   *ssa.Function
+		rule string
+		who  string
+	}{{t.Queue, "C06-R3", "queue goroutine"}, {t.Worker, "C06-R4", "worker goroutine"}} {
+		doneEdges, _ := t.armEdges(g.fn, func(sel *ssa.Select, a sx.Arm) bool {
+			return a.State != nil && a.State.Dir == types.RecvOnly && t.chanRole(a.State.Chan) == "done"
+		})
+		sx.Instrs(g.fn, func(in ssa.Instruction) {
+			c, ok := in.(*ssa.Call)
+			if !ok || sx.CalleeName(c) != "(context.Context).Err" || !sx.Origins(c.Call.Value)[t.fieldKey(t.Ctx)] {
+				return
+			}
+			_, nonNil := sx.NilEdges(c)
+			for e := range nonNil {
+				doneEdges[e] = true
+			}
+		})
+		okExit, where := true, ""
+		for _, ret := range sx.Returns(g.fn) {
+			if sx.ReachInstr(g.fn, nil, ret, sx.Cut{Edges: doneEdges}) {
+				okExit, where = false, p.Pos(ret.Pos())
+			}
+		}
+		r.Check(okExit, g.rule, g.who+": ends only when the context is done", p.FuncPos(g.fn), "every path to a return passes a `<-ctx.Done()` arm", "the "+g.who+" can return (at "+where+") on a path that took no `<-ctx.Done()` arm — e.g. on a sentinel task value: tasks accepted afterwards are never started")
+	}
+
 	// ---- R4
 	{
 		hdr := outerLoop(t.Worker)
@@ -281,56 +346,84 @@ func runC06(p *core.Prog, r *core.Report) {
 				}
 			}
 			r.Check(okOne, "C06-R4", "worker: exactly one Start per iteration", p.Pos(hdr.Instrs[0].Pos()), "each trip around the loop calls Start once", "an iteration can call Start zero or several times for one received task")
-			// receiver identity
+			// receiver identity: the Start calls inside the worker's view (incl. its closures), and inside a
+			// callee that stays a call (the per-task frame with the deferred recover) judged at the call's argument
 			okID, why := true, ""
-			for f := range reachableFrom(p, t.Worker) {
+			type startAt struct {
+				recv ssa.Value
+			}
+			var starts []startAt
+			for _, f := range sx.WithClosures(t.Worker) {
 				sx.Instrs(f, func(in ssa.Instruction) {
-					c, ok := in.(ssa.CallInstruction)
-					if !ok || !t.isStart(c) {
-						return
-					}
-					recv := c.Common().Value
-					// Start inside a helper that receives the task: judge the argument at the helper's call site in the worker
-					if prm, ok := sx.Unspill(recv).(*ssa.Parameter); ok && f != t.Worker {
-						for _, cs := range staticCalls(p).callers[f] {
-							args := sx.Args(cs.Instr)
-							for i, fp := range f.Params {
-								if fp == prm && i < len(args) && rootFn(cs.Caller) == t.Worker {
-									recv = args[i]
-								}
-							}
-						}
-					}
-					if receivedInLoop(t, recv, hdr, "blocking|shared") {
-						return
-					}
-					// through a cell declared outside the loop
-					cell := cellOf(recv)
-					if cell == nil {
-						okID, why = false, "receiver of Start ("+sx.ValPath(recv)+") is not a value received in the loop"
-						return
-					}
-					stores, complete := sx.CellStores(cell)
-					cut := sx.Cut{Instrs: map[ssa.Instruction]bool{}}
-					if !complete {
-						okID, why = false, "the task variable escapes"
-					}
-					for _, sv := range stores {
-						if !receivedInLoop(t, sv, hdr, "blocking|shared") {
-							okID, why = false, "the task variable is assigned "+sx.ValPath(sv)+", which is not a value received in this iteration"
-						}
-					}
-					sx.Instrs(t.Worker, func(i2 ssa.Instruction) {
-						if st, ok := i2.(*ssa.Store); ok && st.Addr == ssa.Value(cell) {
-							cut.Instrs[i2] = true
-						}
-					})
-					for _, s := range sites {
-						if sx.ReachInstr(t.Worker, hdr.Instrs[0], s.(ssa.Instruction), cut) && hdr.Instrs[0] != s.(ssa.Instruction) {
-							okID, why = false, "Start site at "+p.Pos(s.Pos())+" is reachable from the loop head without assigning the task variable: the task of a previous iteration would be started again"
-						}
+					if c, ok := in.(ssa.CallInstruction); ok && t.isStart(c) {
+						starts = append(starts, startAt{c.Common().Value})
 					}
 				})
+			}
+			for _, s := range sites {
+				callee := sx.StaticCallee(s)
+				if t.isStart(s) || callee == nil || callee.Parent() != nil {
+					continue // a direct Start, or a closure of the view (both collected above)
+				}
+				found := false
+				for _, f := range sx.WithClosures(callee) {
+					sx.Instrs(f, func(in ssa.Instruction) {
+						c, ok := in.(ssa.CallInstruction)
+						if !ok || !t.isStart(c) {
+							return
+						}
+						found = true
+						prm, isP := sx.Unspill(c.Common().Value).(*ssa.Parameter)
+						if !isP || f != callee {
+							okID, why = false, "Start in "+fnName(f)+" runs on "+sx.ValPath(c.Common().Value)+", which is not the task passed in by the worker"
+							return
+						}
+						args := sx.Args(s)
+						for i, fp := range callee.Params {
+							if fp == prm && i < len(args) {
+								starts = append(starts, startAt{args[i]})
+							}
+						}
+					})
+				}
+				if !found {
+					okID, why = false, "Start is reached through "+fnName(callee)+" but not called in it directly: the task it runs on cannot be followed"
+				}
+			}
+			if len(starts) == 0 {
+				okID, why = false, "no Start call found in the worker's view"
+			}
+			for _, sa := range starts {
+				recv := sa.recv
+				if receivedInLoop(t, recv, hdr, "blocking|shared") {
+					continue
+				}
+				// through a cell declared outside the loop
+				cell := cellOf(recv)
+				if cell == nil {
+					okID, why = false, "receiver of Start ("+sx.ValPath(recv)+") is not a value received in the loop"
+					continue
+				}
+				stores, complete := sx.CellStores(cell)
+				cut := sx.Cut{Instrs: map[ssa.Instruction]bool{}}
+				if !complete {
+					okID, why = false, "the task variable escapes"
+				}
+				for _, sv := range stores {
+					if !receivedInLoop(t, sv, hdr, "blocking|shared") {
+						okID, why = false, "the task variable is assigned "+sx.ValPath(sv)+", which is not a value received in this iteration"
+					}
+				}
+				sx.Instrs(t.Worker, func(i2 ssa.Instruction) {
+					if st, ok := i2.(*ssa.Store); ok && st.Addr == ssa.Value(cell) {
+						cut.Instrs[i2] = true
+					}
+				})
+				for _, s := range sites {
+					if sx.ReachInstr(t.Worker, hdr.Instrs[0], s.(ssa.Instruction), cut) && hdr.Instrs[0] != s.(ssa.Instruction) {
+						okID, why = false, "Start site at "+p.Pos(s.Pos())+" is reachable from the loop head without assigning the task variable: the task of a previous iteration would be started again"
+					}
+				}
 			}
 			r.Check(okID, "C06-R4", "worker: Start runs on the task received in this iteration", p.FuncPos(t.Worker), "receiver is (a variable always assigned from) this iteration's receive", why)
 		}
